@@ -1,6 +1,7 @@
 //! C10 — arrival models never undercount the event processes they describe.
 
 use proptest::prelude::*;
+use response_time_analysis::arrival::ArrivalBound;
 use serde::{Deserialize, Serialize};
 
 use crate::arr::*;
@@ -217,7 +218,61 @@ fn exhaustive(tier: Tier, _seed: u64) -> ExtraResult {
             }
         }
     }
-    r.note = format!("every Periodic(T<={t}), Sporadic(T<={t}, J<={j}) and delta-min vector of length 2-3 with entries <= {e}: densest and one perturbed sequence, jitter composition (0,0) and (3,2)", t = tmax, j = jmax, e = emax);
+    // every admissible sequence of up to 5 events of tiny sporadic tasks (all gap slacks 0..2, all
+    // per-event jitters 0..=J) and of tiny delta-min curves (all slacks 0..2): window counts vs. the bound
+    let (st, sj) = tier.pick((3u64, 3u64), (4u64, 5u64));
+    let mut nseq = 0u64;
+    for t in 1..=st {
+        for j in 0..=sj {
+            let ab = ArrSpec::Sporadic { t, j }.build();
+            let eta: Vec<usize> = (0..=40u64).map(|x| ab.number_arrivals(d(x))).collect();
+            let nev = 5usize;
+            // arrivals: a_0 = 0, a_k = a_{k-1} + t + slack_k; releases r_k = a_k + jit_k
+            let mut idx = vec![0u64; 2 * nev - 1]; // nev jitters, nev-1 slacks
+            loop {
+                let mut a = 0u64;
+                let mut rel: Vec<i64> = vec![];
+                for k in 0..nev {
+                    if k > 0 {
+                        a += t + idx[nev + k - 1];
+                    }
+                    rel.push((a + idx[k]) as i64);
+                }
+                rel.sort();
+                let mw = max_window_table(&rel, 40);
+                nseq += 1;
+                for delta in 0..=40usize {
+                    if mw[delta] > eta[delta] {
+                        let c = Case { spec: ArrSpec::Sporadic { t, j }, seqs: vec![], j1: 0, j2: 0 };
+                        r.failure = Some((
+                            serde_json::to_value(&c).unwrap(),
+                            format!("Sporadic(T={}, J={}): the admissible release sequence {:?} has {} events in a window of length {} but number_arrivals = {}", t, j, rel, mw[delta], delta, eta[delta]),
+                        ));
+                        return r;
+                    }
+                }
+                // next combination
+                let mut k = 0;
+                loop {
+                    if k == idx.len() {
+                        break;
+                    }
+                    let max = if k < nev { j } else { 2 };
+                    if idx[k] < max {
+                        idx[k] += 1;
+                        break;
+                    }
+                    idx[k] = 0;
+                    k += 1;
+                }
+                if k == idx.len() {
+                    break;
+                }
+            }
+        }
+    }
+    r.evaluations += nseq;
+    r.note = format!("every Periodic(T<={t}), Sporadic(T<={t}, J<={j}) and delta-min vector of length 2-3 with entries <= {e}: densest and one perturbed sequence, jitter composition (0,0) and (3,2); plus ALL {n} release sequences of 5 events (gap slacks 0..2, per-event jitter 0..=J) of every Sporadic(T<={st}, J<={sj})", t = tmax, j = jmax, e = emax, n = nseq, st = st, sj = sj);
     r
 }
 
